@@ -22,6 +22,8 @@
   * `-*:*` is only `MatchNoDocs` as a whole query; `NOT *:*` is folded to `MatchNoDocs`;
     `NOT NOT x` inside an `AND` group loses its parentheses            → `noneNested`, `notAll`, `notNotInAnd`
     (`NOT *:*` as an element of a Boolean group is fine)
+  * a query text made of Unicode white space only is `MatchAllDocs` before the grammar is consulted
+    (`(\u{3000})` parses to a term that prints as such a text)          → `blankQuery`
 -/
 import VrlModel.Search.Visitor
 
@@ -32,7 +34,7 @@ open Grammar
 inductive Defect where
   | emptyString | spaceInTerm | attrUnescaped | attrReserved | wildcardRaw | wildcardReparsed
   | keywordPrefix | unicode3000 | numberText | cmpStringNumeric | cmpUnbounded | rangeString | rangeMixed
-  | noneNested | notAll | notNotInAnd | smallBoolean
+  | noneNested | notAll | notNotInAnd | smallBoolean | blankQuery
   deriving DecidableEq, Repr
 
 def Defect.name : Defect → String
@@ -53,6 +55,7 @@ def Defect.name : Defect → String
   | .notAll => "D_not_all"
   | .notNotInAnd => "D_not_not_in_and"
   | .smallBoolean => "D_small_boolean"
+  | .blankQuery => "D_blank_query"
 
 /-! ### string conditions -/
 
@@ -186,7 +189,8 @@ end
 
 /-- defect of a whole query: `MatchNoDocs` is fine as the root -/
 def rootDefect (F : FloatLib) (t : QNode) : Option Defect :=
-  if t = .leaf .matchNone then none else defectOf F t
+  if t = .leaf .matchNone then none
+  else orElse (defectOf F t) (if (t.toLucene F).all isUnicodeWs then some .blankQuery else none)
 
 /-! ### the normal form -/
 
@@ -240,6 +244,7 @@ mutual
 end
 
 /-- normal form of a whole query -/
-def NFRoot (F : FloatLib) (t : QNode) : Bool := decide (t = .leaf .matchNone) || NF F t
+def NFRoot (F : FloatLib) (t : QNode) : Bool :=
+  decide (t = .leaf .matchNone) || (NF F t && !(t.toLucene F).all isUnicodeWs)
 
 end Search
